@@ -150,7 +150,7 @@ class Check(DiffCheck):
     extract_v = 'C13/C13_Extract.v'
     runner_ml = 'ocaml/C13_run.ml'
     model_module = 'C13_model'
-    case_timeout = 900
+    case_timeout = 3600      # per shard process; the thorough tier needs > 15 min per model shard on a heavily loaded box
     rule = ('cases: corpus; B/C/R exhaustive small (every partial-body length x fragmentations {whole,1,2,3,5 bytes,every split into <=4 '
             'pieces} x read sizes); chunk sizes 1/15/16/255/4095/4096/4097/multi-KB, hex case, extensions; M = whole messages '
             '(structured requests/responses, 0..N headers incl. duplicates/mixed case/empty values; Content-Length / chunked / close-'
